@@ -1,0 +1,20 @@
+//go:build verif
+
+package main
+
+import (
+	"os"
+	"runtime"
+)
+
+// Verification hook (C35); not part of the normal build.
+//
+// With ZOEKT_VERIF_LOCKTHREAD set, the main goroutine stays on the start-up thread, so that every
+// file-system system call of merge/explode (which run entirely on the main goroutine) is issued by one
+// thread. The C35 harness runs the real binary under `strace -e inject=…:when=k`, whose invocation
+// counters are per thread; pinning makes "the k-th rename/unlink/open" well defined.
+func init() {
+	if os.Getenv("ZOEKT_VERIF_LOCKTHREAD") != "" {
+		runtime.LockOSThread()
+	}
+}
